@@ -131,8 +131,11 @@ def mono_case(tape, tier, res):
     hist = []
     with sched.clock_installed(clock):
         d0 = tape.pick("dur0", DURS)
-        timer = htiming.MonoTimer(duration=d0)
-        hist.append(("init", d0))
+        # retro=False: the timer refuses (raises RetroTimerError) to give a reading while the system clock is behind the last
+        # one it saw; the readings it does give are held to the same rule: elapsed never decreases, expired never reverts
+        retro = not tape.flag("strict_timer", 1, 4)
+        timer = htiming.MonoTimer(duration=d0, retro=retro)
+        hist.append(("init", d0, retro))
         # while the wall clock has not gone backwards the timer is plain arithmetic on it (start, stop = start + duration,
         # restart from the previous stop); after the first backward step only monotonicity is demanded
         wall = lambda: clock.true + clock.offset
@@ -169,7 +172,14 @@ def mono_case(tape, tier, res):
                 res.faults["stall"] += 1
             elif op == 4:
                 dur = tape.pick("dur", [None] + DURS)
-                r = timer.start(duration=dur)
+                try:
+                    r = timer.start(duration=dur)
+                except htiming.RetroTimerError:
+                    if retro:
+                        raise
+                    hist.append(("start-refused", dur))
+                    res.probes["strict_timer_refused"] += 1
+                    continue
                 hist.append(("start", dur))
                 cur = m_stop - m_start
                 m_start = wall()
@@ -200,8 +210,15 @@ def mono_case(tape, tier, res):
             if op != 0:
                 hist.append(("read",))
             # reading
-            el = timer.elapsed
-            ex = timer.expired
+            try:
+                el = timer.elapsed
+                ex = timer.expired
+            except htiming.RetroTimerError:
+                if retro:
+                    raise
+                hist.append(("refused",))
+                res.probes["strict_timer_refused"] += 1
+                continue
             reads += 1
             res.comparisons += 2
             if exact:
@@ -254,8 +271,9 @@ def run_case(tape, tier):
         where = next((f for f in reversed(tb) if "/hio/" in f.filename), tb[-1])
         res.violate("timer-raised", "%s raised %s: %s (in %s:%d %s)" % (
             "Tymer" if kind == 0 else "MonoTimer", type(ex).__name__, str(ex)[:120], where.filename.split("/")[-1], where.lineno, where.name))
+        exname = type(ex).__name__
         if res.scenario is None:
-            res.scenario = lambda: dict(kind="tymer" if kind == 0 else "monotimer", raised=type(ex).__name__)
+            res.scenario = lambda: dict(kind="tymer" if kind == 0 else "monotimer", raised=exname)
         if not res.scen_digest:
             res.scen_digest = digest(["raised", kind, str(ex)[:80]])
             res.event_digest = res.scen_digest
